@@ -9,10 +9,10 @@ from specs import sigblock as SB
 
 APKF = "androguard/core/apk/__init__.py"
 META = {
-    "technique": 'contract-based deductive verification: symbolic execution of the real functions against sidecar contracts (z3/cvc5) for the proved units; bounded contract evaluation (enumerated scope / independent writer) for the rest',
+    "technique": 'contract-based deductive verification: symbolic execution of the real functions against sidecar contracts (z3/cvc5) for the proved units, inductive loop invariants and termination variants on the real loops (unbounded in length and iteration count); bounded contract evaluation (enumerated scope / independent writer) for the rest',
     "level": "other",
     "partial": True,
-    "level_text": "Proof: parse_signatures_or_digests on sequences of 0..2 elements whose ids and digest bytes are symbolic returns "
+    "level_text": "Loop contract (unbounded, with termination variant): parse_signatures_or_digests on a length-prefixed sequence of any length and content: pair j = (id, digest bytes) of element j (ghost element offsets E(k) defined by the bytes, Skolem j). Proof: parse_signatures_or_digests on sequences of 0..2 elements whose ids and digest bytes are symbolic returns "
                   "exactly the (id, bytes) pairs; the guard structure of parse_v2_signing_block / parse_v3_signing_block(v31) is "
                   "enumerated over every presence combination of v2/v3/v3.1 blocks (data of a scheme is decoded iff a block with "
                   "its id is present, taken from the first such block). Bounded (model-based): APKs carrying signing blocks produced "
@@ -170,3 +170,129 @@ def presence_guards(U):
             U.ensures("present scheme %s is decoded" % hex(sid), o.ok and _expect_signers(sig[sid], got or [], v3), exc=repr(o.exc))
         else:
             U.ensures("absent scheme %s reports nothing" % hex(sid), o.ok and not got)
+
+
+# ------------------------------------------------------------------------------------------------
+# Loop contract (unbounded + termination): APK.parse_signatures_or_digests on a length-prefixed sequence of ANY length and content.
+# Ghost functions defined by the bytes: E(k) = offset of element k (E(0) = 0, E(k+1) = E(k) + 4 + u32@E(k)).  Invariant: the stream
+# stands at E(k) (or at the end of the data once an element reaches past it), the result list has k pairs and (Skolem j < k) pair j
+# is (u32@E(j)+4, the digest_len bytes behind it).  Variant: bytes left.
+import z3  # noqa: E402
+
+from pyvc import core, ubuf  # noqa: E402
+from pyvc.loops import GhostList, LoopSpec  # noqa: E402
+
+
+class _IoU:
+    """io module stand-in: BytesIO over a symbolic buffer is the symbolic stream model"""
+
+    def __init__(self):
+        self.made = []
+
+    def BytesIO(self, data=b""):
+        if isinstance(data, ubuf.SymBuf):
+            s = ubuf.SymStreamU(data, 0, "block")
+            self.made.append(s)
+            return s
+        return io.BytesIO(data)
+
+    def __getattr__(self, n):
+        return getattr(io, n)
+
+
+import io  # noqa: E402
+
+
+def _u32m(mem, addr):
+    return mem.byte(addr) | (mem.byte(addr + 1) << 8) | (mem.byte(addr + 2) << 16) | (mem.byte(addr + 3) << 24)
+
+
+class _Elems:
+    def __init__(self, mem):
+        self.mem = mem
+        self.f = z3.Function("E", z3.BitVecSort(core.W), z3.BitVecSort(core.W))
+        core.ctx().add_fact(self.f(z3.BitVecVal(0, core.W)) == 0)
+
+    def E(self, k):
+        t = self.f(core.SymInt.lift(k).t)
+        core.ctx().add_fact(z3.And(t >= 0, t <= ubuf.MAXLEN + (1 << 40)))
+        return core.SymInt(t, 0, ubuf.MAXLEN + (1 << 40))
+
+    def define_next(self, k):
+        core.ctx().add_fact((self.E(k + 1) == self.E(k) + 4 + _u32m(self.mem, self.E(k))).t)
+
+
+def _inv_digests(spec, L, k):
+    w, j, blk, n = spec.G["world"], spec.G["j"], L["block"], L["digest_bytes"].length
+    lst = L["digests"]
+    cnt = lst.n if isinstance(lst, GhostList) else len(lst)
+    inv = And(blk.pos >= 0, cnt == spec.G["count"](L), Or(blk.pos == w.E(cnt), And(blk.pos >= n, w.E(cnt) >= n)))
+    if isinstance(lst, GhostList):
+        inv = And(inv, Implies(And(0 <= j, j < cnt), And(lst.obs("id", j) == _u32m(w.mem, w.E(j) + 4), lst.obs("len", j) == spec.G["dlen"](j),
+                                                          Or(lst.obs("len", j) == 0, lst.obs("at", j) == w.E(j) + 12))))
+    return inv
+
+
+def _havoc_digests(spec, L):
+    pass
+
+
+DIGESTS = LoopSpec("APK.parse_signatures_or_digests#0", invariant=_inv_digests,
+                   variant=lambda s, L, k: Ite(L["block"].pos <= L["digest_bytes"].length, L["digest_bytes"].length - L["block"].pos + 1, 0),
+                   havoc={"digests": lambda s, L: s.G["fresh_list"]()}, heap=("block",), const=("self", "digest_bytes"),
+                   at_iteration=lambda s, L, k: s.G["world"].define_next(L["digests"].n))
+
+
+@unit("C33", covers=[(APKF, "APK.parse_signatures_or_digests"), (APKF, "APK.read_uint32_le")],
+      loops={(APKF, "APK.parse_signatures_or_digests", 0): DIGESTS}, samples=150, max_paths=4000, terminates=True,
+      note="loop contract: a length-prefixed sequence of any length and content (any number of elements, any digest length); "
+           "ghost element offsets E(k) defined by the bytes; variant = bytes left")
+def digest_sequence_unbounded(U):
+    m = U.mod(APKF)
+    a = _apk(m)
+    if U.mode != "sym":
+        n = U.int("n", 0, 4)
+        els, want = b"", []
+        for i in range(n):
+            d = bytes(U.bytes("d%d" % i, U.int("l%d" % i, 0, 6)))
+            aid = U.int("id%d" % i, 0, 0xFFFFFFFF)
+            extra = bytes(U.int("x%d" % i, 0, 2))          # an element may be longer than id + length + digest
+            el = struct.pack("<II", aid, len(d)) + d + extra
+            els += struct.pack("<I", len(el)) + el
+            want.append((aid, d))
+        o = U.call(a.parse_signatures_or_digests, els)
+        U.ensures("one (id, bytes) pair per element, in order", o.ok and o.value == want, got=repr(o.value if o.ok else o.exc)[:120])
+        return
+    U.substitute(m, "io", _IoU(), "BytesIO over a symbolic buffer = symbolic stream model")
+    mem = ubuf.SymMem("seq")
+    data = ubuf.SymBuf(mem, 0, U.int("len", 1, ubuf.MAXLEN))
+    world = _Elems(mem)
+    j = U.int("j", 0, 1 << 32)
+    lst = [None]
+
+    def fresh_list():
+        g = GhostList("digests", {"id": (lambda t: t[0], 0, 0xFFFFFFFF),
+                                  "len": (lambda t: t[1].length if isinstance(t[1], ubuf.SymBuf) else len(t[1]), 0, ubuf.MAXLEN),
+                                  "at": (lambda t: (t[1].base if isinstance(t[1], ubuf.SymBuf) else getattr(t[1], "addr", -1)), -1, ubuf.MAXLEN + (1 << 41))})
+        g.havoc("digests")
+        lst[0] = g
+        return g
+
+    def dlen(jj):
+        # digest_len clipped to what the data holds behind the element's header
+        decl = _u32m(mem, world.E(jj) + 8)
+        left = data.length - (world.E(jj) + 12)
+        return Ite(decl <= left, decl, Ite(left >= 0, left, 0))
+    DIGESTS.G = {"U": U, "world": world, "j": j, "fresh_list": fresh_list, "dlen": dlen,
+                 "count": lambda L: (L["digests"].n if isinstance(L["digests"], GhostList) else len(L["digests"]))}
+    o = U.call(a.parse_signatures_or_digests, data)
+    if not o.ok:
+        U.ensures("the only failure is a truncated element header (struct.error)", o.raised(m.__pyvc_struct__.error), exc=repr(o.exc))
+        return
+    U.cover("the sequence is read to its end")
+    r = o.value
+    U.ensures("the result is the list the loop built", r is lst[0] or r == [])
+    if isinstance(r, GhostList):
+        U.ensures("pair j is (algorithm id, digest bytes) of element j: id = word at E(j)+4, digest = the declared number of bytes at "
+                  "E(j)+12 (clipped to the data)",
+                  Implies(And(0 <= j, j < r.n), And(r.obs("id", j) == _u32m(mem, world.E(j) + 4), r.obs("len", j) == dlen(j), Or(r.obs("len", j) == 0, r.obs("at", j) == world.E(j) + 12))))
